@@ -1,17 +1,16 @@
 // govc:pkg stream
 // govc:bound partition value tuples of arity 1..2 over a pool of 31 typed values (strings with '|' / ':' / digits look-alikes and imitations of the inter-column framing, ints, int64, floats incl. 16777216/16777217 and 0.1/0.10000000001, bools, NULL); all pairs compared
-// Bounded stand-in (NOT a proof): the typed, length-prefixed partition key of analytic functions is the same for two
-// rows iff their PARTITION BY values are identical (same Go type and value).
+// Bounded stand-in (NOT a proof): the typed, length-prefixed partition key of MATCH_RECOGNIZE (cepRunner.partitionKey) is the
+// same for two rows iff their PARTITION BY values are identical (same Go type and value), so other partitions' events never matter.
 package stream
 
 import (
 	"fmt"
 	"testing"
 
-	"github.com/rulego/streamsql/types"
 )
 
-func TestGovcBounded_partition_keys(t *testing.T) {
+func TestGovcBounded_cep_partition_keys(t *testing.T) {
 	pool := []any{nil, "", "a", "|", "a|", "1:a|", "string|a", "int|1", "1", 1, 2, 12, int64(1), int64(12), 1.0, 1.5, 16777216.0, 16777217.0, 0.1, 0.10000000001, true, false}
 	// values that imitate the framing between two columns ("<len>:<type>|<value>|"), with the length digits a broken
 	// prefix could produce (length of the column name, of the value, of the typed value)
@@ -22,7 +21,7 @@ func TestGovcBounded_partition_keys(t *testing.T) {
 	cases, fails := 0, 0
 	for arity := 1; arity <= 2; arity++ {
 		cols := []string{"k1", "k2"}[:arity]
-		fe := &analyticFieldEngine{af: types.AnalyticField{Over: &types.OverSpec{PartitionBy: cols}}}
+		fe := &cepRunner{partitionBy: cols}
 		var tuples [][]any
 		if arity == 1 {
 			for _, a := range pool {
@@ -55,13 +54,13 @@ func TestGovcBounded_partition_keys(t *testing.T) {
 				if (keys[i] == keys[j]) != same {
 					fails++
 					if fails <= 5 {
-						fmt.Printf("GOVC-BOUNDED-FAIL partitionKey: %#v and %#v: same=%v keys %q / %q\n", tuples[i], tuples[j], same, keys[i], keys[j])
+						fmt.Printf("GOVC-BOUNDED-FAIL cep_partitionKey: %#v and %#v: same=%v keys %q / %q\n", tuples[i], tuples[j], same, keys[i], keys[j])
 					}
 				}
 			}
 		}
 	}
-	fmt.Printf("GOVC-BOUNDED-DONE partition_keys cases=%d failures=%d\n", cases, fails)
+	fmt.Printf("GOVC-BOUNDED-DONE cep_partition_keys cases=%d failures=%d\n", cases, fails)
 	if fails > 0 {
 		t.Fail()
 	}
